@@ -379,7 +379,7 @@ PLAN["C17"] = {
 PLAN["C12"] = {
     "level": "exploration",
     "rule": ("(Paths, rapid) drawn (mode, depth from {1,2,3,4,8,16,20,30,max,uniform}, batch 1..8); the constraint system is built through BuildR1CSX, built again, built while three other compilations run concurrently in the same process, "
-             "and exported by the built binary's 'r1cs' command in a fresh process with GOMAXPROCS in {1,2,3,16}; (SetupPaths) at small dimensions additionally through SetupX, ImportXSetup on key files written by the harness from that setup "
+             "and exported by the built binary's 'r1cs' command in a fresh process with GOMAXPROCS in {1,2,3,16}, with GOMEMLIMIT / GOGC settings, and in-process under a soft memory limit; (SetupPaths) at small dimensions additionally through SetupX, ImportXSetup on key files written by the harness from that setup "
              "(followed by proving with the imported system and verifying with the original), and in thorough through the CLI 'setup' (constraint-system section = file tail). Oracle (metamorphic): the SHA-256 of ConstraintSystem.WriteTo is identical "
              "across every path, run and process for one triple, and different for different triples seen in the run; the system has exactly one public input besides the constant wire; imported systems keep their dimensions. "
              "(Guard) deletion depth 32/33/64 is refused by BuildR1CSDeletion, SetupDeletion, ImportDeletionSetup and by the CLI 'r1cs' and 'setup' (non-zero exit, no output content). "
